@@ -79,16 +79,17 @@ theorem inv_wRun {c : Cfg} {s : State} {t j : Nat} (h : Inv c s) (hpc : s.pc t =
 
 theorem inv_fin {c : Cfg} {s : State} {t : Nat} (h : Inv c s)
     (hpc : s.pc t = Pc.wExit ∨ (s.pc t = Pc.idle ∧ s.ret t = Ret.script ∧ s.todo t = []) ∨
-           (s.pc t = Pc.wAfterJob ∧ s.cur t = false)) :
+           (s.pc t = Pc.wAfterJob ∧ s.cur t = false) ∨ s.pc t = Pc.bExitPc) :
     Inv c (stepFin s t).1 := by
   have hex : t < c.nw → s.exit = true := by
     intro htw
     have h1 := h.n_noexit
     have h2 := h.t_script t
     have h3 := h.z_cur t htw
+    have h4 := h.bb_pc t
     cases hx : s.exit with
     | true => rfl
-    | false => have := h1 hx t; grind
+    | false => have := h1 hx t; grind [Pc.isB]
   have hdq : s.dq t = [] := by
     have := h.l_dqpc t; grind [Pc.inStop]
   have htm : s.tmp t = [] := by
